@@ -82,6 +82,9 @@ def Mat.ncols {α} (A : Mat α) : Nat := (A.getD 0 []).length
 def Mat.transpose {α} [Zero α] (A : Mat α) : Mat α :=
   (List.range A.ncols).map fun j => (List.range A.nrows).map fun i => A.get i j
 
+/-- `np.dot` / `u @ v` of two 1-d arrays. -/
+def dot {α} [Add α] [Mul α] [Zero α] (u v : List α) : α := (List.zipWith (· * ·) u v).sum
+
 /-- Two-matrix step of `khatrirao`: rows of `P` slow, rows of `M` fast,
 entry `M[b,r] * P[a,r]` (the code multiplies the new matrix on the left). -/
 def kr2 {α} [Mul α] (P M : Mat α) : Mat α :=
